@@ -78,6 +78,14 @@ func (hs *heightSub) SetHeight(height uint64) {
 // It can return errElapsedHeight, which means a requested height was already seen
 // and caller should get it elsewhere.
 func (hs *heightSub) Wait(ctx context.Context, height uint64) error {
+	return hs.WaitUnless(ctx, height, nil)
+}
+
+// WaitUnless is [Wait] with a final check made once the subscription is in place:
+// if present reports true, the call returns at once.
+// A header published between the caller's own lookup and the subscription is not signalled
+// anymore (Notify has already fired), but it is found by that check.
+func (hs *heightSub) WaitUnless(ctx context.Context, height uint64, present func() bool) error {
 	if hs.Height() >= height {
 		return errElapsedHeight
 	}
@@ -101,6 +109,18 @@ func (hs *heightSub) Wait(ctx context.Context, height uint64) error {
 	}
 	sac.count++
 	hs.heightSubsLk.Unlock()
+
+	if present != nil && present() {
+		hs.heightSubsLk.Lock()
+		select {
+		case <-sac.signal:
+			// signalled meanwhile: the subscription is gone already
+		default:
+			hs.notify(height, false)
+		}
+		hs.heightSubsLk.Unlock()
+		return nil
+	}
 
 	select {
 	case <-sac.signal:
